@@ -136,6 +136,7 @@ fn worker<S: Scenario>(
             let _ = progress.seek(SeekFrom::Start(0));
             let _ = progress.write_all(format!("{:020} {:020}\n", unit, ordinal).as_bytes());
             ordinal += 1;
+            BUDGET.store(S::budget(&plan), std::sync::atomic::Ordering::Relaxed);
             HEARTBEAT.fetch_add(1, std::sync::atomic::Ordering::Relaxed);
             o.evaluations += 1;
             obs.reset_run();
@@ -190,6 +191,8 @@ fn worker<S: Scenario>(
 
 pub static HEARTBEAT: std::sync::atomic::AtomicU64 = std::sync::atomic::AtomicU64::new(0);
 pub const HANG_EXIT: i32 = 86;
+/// Multiplier of the hang limit for the plan now running (set before each plan).
+pub static BUDGET: std::sync::atomic::AtomicU64 = std::sync::atomic::AtomicU64::new(1);
 
 fn hang_limit() -> Duration {
     Duration::from_secs(
@@ -234,6 +237,7 @@ fn start_watchdog() {
                 (Some(a), Some(b)) => Some(b - a),
                 _ => None,
             };
+            let limit = limit * BUDGET.load(std::sync::atomic::Ordering::Relaxed).clamp(1, 1000) as u32;
             let hung = match burnt {
                 Some(c) => c > limit.as_secs_f64() || since.elapsed() > limit * 20,
                 None => since.elapsed() > limit * 3,
@@ -1118,6 +1122,7 @@ fn replay_history<S: Scenario>(rf: &ReplayFile, file: &str, units: &[u64]) -> i3
     let mut n = 0u64;
     for u in units {
         S::unit(rf.seed, tier, *u, &mut |plan: S::Plan| {
+            BUDGET.store(S::budget(&plan), std::sync::atomic::Ordering::Relaxed);
             HEARTBEAT.fetch_add(1, std::sync::atomic::Ordering::Relaxed);
             obs.reset_run();
             n += 1;
@@ -1162,6 +1167,7 @@ fn replay<S: Scenario>(rf: &ReplayFile, file: &str) -> i32 {
     };
     let mut obs = Obs::new(true);
     start_watchdog();
+    BUDGET.store(S::budget(&plan), std::sync::atomic::Ordering::Relaxed);
     HEARTBEAT.fetch_add(1, std::sync::atomic::Ordering::Relaxed);
     let r = S::execute(&plan, &mut obs);
     if std::env::var("VERIF_TRACE").is_ok() {
